@@ -28,6 +28,8 @@
 
 mod full;
 mod fullo;
+mod hist;
+mod histo;
 mod oracle;
 mod scn;
 mod sim;
@@ -37,6 +39,9 @@ use vh::mon::{self, Ctx, Reporter};
 
 use scn::{Scenario, Strat, BEH_NAMES};
 
+/// histories per quick run (all shards)
+const HIST_QUICK: u64 = 24_000;
+
 fn main() {
     let ctx = Ctx::from_args("C18");
     mon::install_panic_monitor();
@@ -45,7 +50,21 @@ fn main() {
     if let Some(w) = ctx.replay_case() {
         // "mode":"full" = a case of the full-stack observation point (full.rs); anything else is a
         // SimConnProvider scenario
-        if w["case"].get("mode").and_then(|m| m.as_str()) == Some("full") {
+        if w["case"].get("mode").and_then(|m| m.as_str()) == Some("full-history") {
+            // a multi-lookup history on one pool (hist.rs / histo.rs)
+            match hist::HScn::from_json(&w["case"]) {
+                Some(h) => {
+                    if ctx.extra.contains_key("dump") {
+                        histo::dump(&h);
+                    }
+                    histo::judge(&mut rep, &h)
+                }
+                None => {
+                    eprintln!("replay file has no usable full-history case");
+                    std::process::exit(3);
+                }
+            }
+        } else if w["case"].get("mode").and_then(|m| m.as_str()) == Some("full") {
             match full::FScn::from_json(&w["case"]) {
                 Some(s) => {
                     if ctx.extra.contains_key("dump") {
@@ -167,6 +186,17 @@ fn main() {
         for _ in 0..n {
             let s = full::gen_full(&mut frng);
             fullo::judge(&mut rep, &s);
+        }
+    }
+
+    // ---- (e) full stack, histories: sequential lookups on one pool, pooled connections killed
+    // between / during lookups (hist.rs / histo.rs)
+    {
+        let mut hrng = ctx.rng("full-history");
+        let n = ctx.budget(HIST_QUICK, 3_000_000);
+        for _ in 0..n {
+            let h = hist::gen_hist(&mut hrng);
+            histo::judge(&mut rep, &h);
         }
     }
 
